@@ -41,7 +41,7 @@ package gated
 //@   ensures C11/composed-exactly-once-from-the-groups-events: ge != nil && w.composeFrom != nil ==> calls("fn:Filter.composeFrom") == old(calls("fn:Filter.composeFrom")) + 1 && ev_kind(old(ev_n)) == "callfn:Filter.composeFrom" && ev_a(old(ev_n), 2) == arr(ge.events)
 //@   ensures C11/sent-at-most-once-and-only-non-gateable-composites: calls("Sender.Send") <= old(calls("Sender.Send")) + 1 && (err == nil && w.Broker != nil && ge != nil ==> calls("Sender.Send") == old(calls("Sender.Send")) + 1 && ev_kind(ev_n - 1) == "call:gated.Sender.Send" && !tagImplements(ev_a(old(ev_n), 6), "Gateable") && ev_a(ev_n - 1, 3) == ev_a(old(ev_n), 5))
 //@   ensures C11/failed-composition-sends-nothing: ge != nil && w.composeFrom != nil && ev_a(old(ev_n), 8) != 0 ==> err != nil && calls("Sender.Send") == old(calls("Sender.Send"))
-//@   ensures still-locked: held(w.l) == 2 && w.gated != nil && w.orderedGated != nil
+//@   ensures C11+C17+C19/lock-never-released-while-opening: held(w.l) == 2 && acquisitions(w.l) == old(acquisitions(w.l)) && w.gated != nil && w.orderedGated != nil
 //@   ensures gate-map-consistent: gateMapOK(w)
 //@   ensures gate-list-consistent: gateListOK(w)
 //@   ensures list-wellformed: listOK(w.orderedGated)
@@ -61,7 +61,8 @@ package gated
 //@   ensures C11/no-broker-drops-without-composing: old(w.Broker) == nil ==> calls("fn:Filter.composeFrom") == old(calls("fn:Filter.composeFrom")) && calls("Sender.Send") == old(calls("Sender.Send"))
 //@   ensures gate-stays-consistent: gateOK(w)
 //@   ensures unlocked: held(w.l) == 0 && (forall x ref :: x != ref(w.l) ==> heldAt(x) == old(heldAt(x)))
-//@   loop 1 invariant held(w.l) == 2 && w.gated != nil && w.orderedGated != nil && w.composeFrom != nil && w.Broker != nil && gateOK(w) && (forall x ref :: x != ref(w.l) ==> heldAt(x) == old(heldAt(x)))
+//@   ensures C11+C17+C19/single-critical-section: acquisitions(w.l) == old(acquisitions(w.l)) + 1
+//@   loop 1 invariant held(w.l) == 2 && acquisitions(w.l) == old(acquisitions(w.l)) + 1 && w.gated != nil && w.orderedGated != nil && w.composeFrom != nil && w.Broker != nil && gateOK(w) && (forall x ref :: x != ref(w.l) ==> heldAt(x) == old(heldAt(x)))
 //@   loop 1 invariant C17/cursor-is-the-oldest-remaining-group: (listLen(w.orderedGated) > 0 ==> e == listAt(w.orderedGated, 0)) && (listLen(w.orderedGated) == 0 ==> e == nil)
 //@   loop 1 invariant calls("fn:Filter.composeFrom") + listLen(w.orderedGated) == old(calls("fn:Filter.composeFrom")) + old(listLen(w.orderedGated))
 
